@@ -547,6 +547,11 @@ func (v *Vue) callFunc(ctx *VueContext, fn any, args ...any) (any, error) {
 			if !ok {
 				return nil, fmt.Errorf("cannot convert argument %d from %v to %v", i, argVal.Type(), argType)
 			}
+			// convertValue yields the basic type of the kind (string, bool);
+			// a parameter of a named type (type Slug string) takes its own
+			if converted.Type() != argType && converted.CanConvert(argType) {
+				converted = converted.Convert(argType)
+			}
 			in[i] = converted
 		}
 	}
